@@ -219,9 +219,12 @@ pub fn syntax_to_semantic<T: SourceTrait>(
             // It is probably possible to encapsulate the manipulations of (context, errors).
             // But I have not made much of an attempt to do so.
             synast::Stmt::Include(include) => {
-                let file: synast::FilePath = include.file().unwrap();
-                let file_path = file.to_string().unwrap();
-                if file_path == "stdgates.inc" {
+                let file_path = include.file().and_then(|file| file.to_string());
+                if file_path.is_none() {
+                    // A malformed path, eg. one containing an invalid escape sequence. No
+                    // file has been read for this statement (see `parse_included_files`).
+                    context.insert_error(InvalidFilename, &include);
+                } else if file_path.as_deref() == Some("stdgates.inc") {
                     // We do not use a file for standard library, but rather create the symbols.
                     context.standard_library_gates(&include);
                 } else {
